@@ -233,7 +233,7 @@ Fixpoint collect_results {A} (l : list (outcome A)) : outcome (list A) :=
   end.
 
 (* read_values, multi-threaded branch (A-rayon: indexed collect preserves chunk order) *)
-Definition read_values_mt (debug : bool) (tpes : list sig_enc) (lookup : id_lookup) (input : list byte)
+Definition read_values_mt_nonempty (debug : bool) (tpes : list sig_enc) (lookup : id_lookup) (input : list byte)
            (max_threads min_chunk : nat) : outcome (list block * list N) :=
   do chunks <- determine_thread_chunks (length input) max_threads min_chunk;
   do encoders <- collect_results (map (run_chunk debug tpes lookup input) chunks);
@@ -249,9 +249,17 @@ Definition read_values_mt (debug : bool) (tpes : list sig_enc) (lookup : id_look
 (* read_values, single-threaded branch: stop_pos = input.len() - 1 *)
 Definition read_values_st (debug : bool) (tpes : list sig_enc) (lookup : id_lookup) (input : list byte)
   : outcome (list block * list N) :=
-  do stop <- usub (length input) 1;
+  let stop := (length input - 1)%nat in                             (* saturating_sub(1) *)
   do e <- read_single_stream debug tpes lookup input (N.of_nat stop) true;
   enc_finish lz_compress e.
+
+(* read_values: `if multi_thread && !input.is_empty()` *)
+Definition read_values_mt (debug : bool) (tpes : list sig_enc) (lookup : id_lookup) (input : list byte)
+           (max_threads min_chunk : nat) : outcome (list block * list N) :=
+  match input with
+  | [] => read_values_st debug tpes lookup input
+  | _ => read_values_mt_nonempty debug tpes lookup input max_threads min_chunk
+  end.
 
 (* read_body with Input::Reader: stop_pos = absolute end of the file (header included) *)
 Definition read_values_reader (debug : bool) (tpes : list sig_enc) (lookup : id_lookup) (input : list byte)
